@@ -41,6 +41,8 @@ STATEFUL = [
     # explicit bounds narrower than the data: replayed rows may all lie outside them
     "bs(x, df=4, lower_bound=2, upper_bound=8, extrapolation='clip')", "bs(x, df=3, lower_bound=3, upper_bound=7, extrapolation='zero')",
     "center(bs(x, df=4))", "scale(cr(z, df=3))", "scale(poly(y, 2))", "center(`a b`)", "scale(`a b`):a_b", "scale(`a b`)", "standardize(`a b`)",
+    # two different quoted names with the same sanitised alias, inside the same transform
+    "center(`a-b`)", "scale(`a-b`)",
 ]
 STATELESS = ["2.5", "0.5", "3", "log(w)", "np.exp(y)", "I(x * y)", "{x + 1}", "hashed(A, levels=3)", "hashed(H, levels=16)", "hashed(H, levels=8):x", "x", "y", "z", "w", "np.log(w + 1)"]
 LEVELS = {"A": ["b", "a", "d", "c"], "B": ["y", "x", "z"], "G": [3, 1, 2]}
@@ -59,6 +61,7 @@ def train_frame(seed, n):
         "v": rng.permutation(np.arange(n, dtype=float) - (n - 1) / 2.0),
         "a b": rng.uniform(-3, 3, n),
         "a_b": rng.uniform(1, 2, n),
+        "a-b": rng.uniform(20, 30, n),
     }
     cats = {}
     for c, lv in LEVELS.items():
@@ -86,7 +89,7 @@ def follow_frame(train, h):
     if k or not rows:
         k = max(k, 1)
         fresh = {}
-        for c in ["x", "y", "z", "w", "v", "a b", "a_b"]:
+        for c in ["x", "y", "z", "w", "v", "a b", "a_b", "a-b"]:
             lo, hi = train[c].min(), train[c].max()
             fresh[c] = rng.uniform(lo, hi, k)
         f = pd.DataFrame(fresh)
@@ -249,6 +252,8 @@ def gen():
             [["bs(x, df=3, lower_bound=3, upper_bound=7, extrapolation='zero')"], ["z"], ["hashed(H, levels=8)", "x"]],
             # one quoted column inside several stateful transforms (each records its state under the sanitised alias)
             [["center(`a b`)"], ["scale(`a b`)"]],
+            [["center(`a b`)"], ["center(`a-b`)"]],
+            [["scale(`a-b`)"], ["scale(`a b`)"], ["x"]],
             [["scale(`a b`)"], ["center(`a b`)"], ["np.log(`a b` + 10)"], ["standardize(`a b`)", "A"]],
         ]
     )
